@@ -225,3 +225,4 @@ def run(ctx):
                    ok, '' if ok else 'entry kept in the older index: ' + lib.short_path(wb, w1 + w2), wb.loc(i))
     shared.lookup_sees_one_queue_state(ctx, '8')
     shared.index_hit_verified_against_key(ctx, '9')
+    shared.index_entry_purged_from_all_generations(ctx, '10')
